@@ -1,21 +1,14 @@
 /-
-Helper lemmas for C11/C14 (after fix 77a08ea): every direct internal import names a collected path,
-provided no *raw* label already has the `import_internally:` form (the parser's spec.md has no such
-feature; only a hint comment could introduce one, and hints are outside the properties' quantifiers).
-String reasoning on the relabelling `import:M…` ↦ `import_internally:M'…` (M' = M with `/` for `.`).
+Helper lemmas for C11/C14: every direct internal import names a collected path (`resolved_all`, by
+construction since fix 0c1b93c), and the string reasoning on the relabelling
+`import:M…` ↦ `import_internally:M'…` (M' = M with `/` for `.`) of fix 77a08ea (`relabel_target`: the
+target a relabelled label names is the very path whose membership was tested).
 -/
 import Paroxy.Proofs.MakeDb
 namespace Paroxy.DB
 
 /-- "import_internally:" -/
 def sInternalPrefix : Name := sImport ++ sInternally ++ [cColon]
-
-/-- No label produced by the parser is already an internal-import label. -/
-def RawLabels (progs : List Prog) : Prop :=
-  ∀ p ∈ progs, ∀ l ∈ p.labels, dropPrefix? sInternalPrefix l.name = none
-
-instance (progs : List Prog) : Decidable (RawLabels progs) := by
-  unfold RawLabels; infer_instance
 
 theorem dropPrefix?_eq {p s r : Name} (h : dropPrefix? p s = some r) : s = p ++ r := by
   induction p generalizing s with
@@ -196,9 +189,10 @@ theorem relabel_target {internal : List Name} {n q : Name}
             simp [sPy] at this
     · rw [if_neg hm, hnone] at h; cases h
 
-/-- **Every direct internal import is resolved** (what `KeyError` in
-`compute_and_collect_exportations` would contradict). -/
-theorem resolved_of_rawLabels {progs : List Prog} (h : RawLabels progs) : Resolved progs := by
+/-- **Every direct internal import is resolved** — by construction since fix 0c1b93c:
+`compute_direct_importations` keeps a target only when it is a collected program. So
+`compute_and_collect_exportations` can no longer raise `KeyError`, whatever the labels (hints included). -/
+theorem resolved_all (progs : List Prog) : Resolved progs := by
   intro p q hpq
   unfold Imports Direct succs at hpq
   cases hg : get? (directD progs) p with
@@ -207,17 +201,19 @@ theorem resolved_of_rawLabels {progs : List Prog} (h : RawLabels progs) : Resolv
     rw [hg] at hpq
     simp only [Option.getD_some] at hpq
     have hmem := get?_mem hg
-    simp only [directD, directImportations, labelled, List.map_map, List.mem_map,
-      Function.comp_apply, Prod.mk.injEq] at hmem
-    obtain ⟨prog, hprog, -, hv⟩ := hmem
+    simp only [directD, directImportations, List.mem_map, Prod.mk.injEq] at hmem
+    obtain ⟨e, -, -, hv⟩ := hmem
     rw [← hv] at hpq
-    simp only [directOf, labelsOf, relabel, List.mem_filterMap, List.mem_map] at hpq
-    obtain ⟨l, ⟨l0, hl0, rfl⟩, ht⟩ := hpq
-    simp only at ht
-    obtain ⟨hin, hne⟩ := relabel_target (h prog hprog l0 hl0) ht
-    simp only [internalOf, internalPaths, List.mem_append, List.mem_singleton] at hin
-    rcases hin with hin | hin
-    · exact hin
-    · exact absurd hin hne
+    simp only [directOf, List.mem_filterMap] at hpq
+    obtain ⟨l, -, ht⟩ := hpq
+    have hkeys : List.map (fun x => x.1) (labelled progs) = pathsOf progs := keys_labelled progs
+    rw [hkeys] at ht
+    split at ht
+    · split at ht
+      · rename_i hq
+        simp only [Option.some.injEq] at ht
+        rw [← ht]; exact hq
+      · cases ht
+    · cases ht
 
 end Paroxy.DB
